@@ -150,7 +150,7 @@ def contains_key(v, sub):
     return rec(k)
 
 
-def same_events(ctx, rule, instance, fi, got, want, what, skip_args=()):
+def same_events(ctx, rule, instance, fi, got, want, what, skip_args=(), guards=False):
     """Obligation: the sequence of uninterpreted calls `got` (code) equals `want` (spec): same callee,
     same receiver, equal argument terms position by position.  `skip_args` lists argument positions
     that are recorded but not compared."""
@@ -172,6 +172,14 @@ def same_events(ctx, rule, instance, fi, got, want, what, skip_args=()):
             if g.recv is None or w.recv is None:
                 return fail("call %d differs in receiver" % i)
             pairs.append(("receiver", g.recv, w.recv))
+        if guards:
+            from .termflow import TRUE, Poly, g_and
+
+            def cond(ev):
+                c = g_and(ev.guards)
+                return Poly.const(1) if c == TRUE else Poly.atom(c)
+
+            pairs.append(("condition under which it happens", cond(g), cond(w)))
         for j, a, b in pairs:
             try:
                 eq, how, wit = equivalent(a, b)
